@@ -166,61 +166,6 @@ theorem fingerprintHost_bad (puny : Str → Str) (trie : SNode Str) (sfx : Bool)
         · have := hx.lower.lower c h1
           rw [hb] at this; cases this
 
-/-! ## printing without scheme, reparsing with `http` -/
-
-/-- a well-formed tuple without scheme, printed and cut of its leading `//`, is read back — after
-`ensure_protocol` — with the scheme `http` -/
-theorem stripped_reparse (NL PA Q F : Str) (hn : NL ≠ [])
-    (hnd : ∀ c ∈ NL, isNetlocDelim c = false) (hok : netlocOk NL = true)
-    (hns : ∀ L : Str, (∀ c ∈ L, isAsciiAlpha c = true) → NL ≠ L ++ [':'])
-    (hnc : NoCtl NL) (hpath : PathOk PA) (hq : QOk Q) (hf : NoCtl F) :
-    Ural.LruVariants.modelSplit5
-        (ensureProtocol ((urlunsplit20 [] NL PA Q F).drop 2) Ural.LruVariants.httpStr) =
-      some ⟨['h', 't', 't', 'p'], NL, PA, Q, F⟩ := by
-  have hp3 : Ural.LruVariants.httpStr = ['h', 't', 't', 'p'] := rfl
-  have hr : rstripChars ['h', 't', 't', 'p'] [':', '/'] = ['h', 't', 't', 'p'] := by decide
-  have hb : ∀ sc, bodyOf sc NL PA = '/' :: '/' :: (NL ++ PA) := fun sc =>
-    bodyOf_true sc NL PA (by simp [hn]) hpath.abs
-  have e1 : ensureProtocol ((urlunsplit20 [] NL PA Q F).drop 2) Ural.LruVariants.httpStr =
-      urlunsplit20 ['h', 't', 't', 'p'] NL PA Q F := by
-    rw [urlunsplit20_eq, urlunsplit20_eq, hb, hb]
-    simp only [schemePart, ne_eq, not_true_eq_false, if_false, List.nil_append]
-    have e : ('/' :: '/' :: (NL ++ PA) ++ (queryPart Q ++ fragPart F)).drop 2 =
-        NL ++ (PA ++ (queryPart Q ++ fragPart F)) := by simp
-    rw [e]
-    have hpl := protoLen_netloc_rest NL (PA ++ (queryPart Q ++ fragPart F)) hn hnd
-      (pathTail_head PA Q F hpath.abs) hns
-    unfold ensureProtocol
-    rw [hpl, hp3, hr]
-    simp
-  rw [e1]
-  have hsch : SchemeShaped ['h', 't', 't', 'p'] := schemeShaped_of_letters (by simp) (by decide)
-  have hwf : WF ['h', 't', 't', 'p'] NL PA Q F :=
-    { scheme_ok := Or.inr ⟨hsch, by decide⟩
-      netloc_nodelim := hnd
-      netloc_ok := hok
-      path_noq := hpath.noq
-      path_noh := hpath.noh
-      query_noh := hq.1
-      path_abs := fun _ => hpath.abs
-      path_no2 := fun h => absurd h hn
-      rel_nocolon := fun h => by cases h
-      rel_nolead := fun h => by cases h
-      clean := by
-        intro c hc
-        apply unsafe_of_ctl
-        simp only [List.mem_append] at hc
-        rcases hc with (((hc | hc) | hc) | hc) | hc
-        · exact hsch.noCtl c hc
-        · exact hnc c hc
-        · exact hpath.noCtl c hc
-        · exact hq.2 c hc
-        · exact hf c hc }
-  unfold Ural.LruVariants.modelSplit5
-  rw [urlsplit_urlunsplit20 _ _ _ _ _ hwf]
-  rfl
-
-
 /-- on a plain host (or without `strip_suffix`) the language label / suffix step raises nothing -/
 theorem fingerprintHost_ok (puny : Str → Str) (trie : SNode Str) (sfx : Bool) (h : Str)
     (hplain : sfx = true → HostPlain h) :
@@ -343,45 +288,60 @@ theorem fp_tuple (trie : SNode Str) (sfx : Bool) (hplain : sfx = true → HostPl
         exact absurd trivial (by simpa using this)
 
 
+omit hpc G in
+theorem fpString_eq (t : Split) :
+    fpString t = printed true t.scheme t.netloc t.path t.query (t.fragment.getD []) := by
+  unfold fpString printed
+  rw [urlunsplit_eq_urlunsplit20]
+  simp only [Bool.true_and]
+
 /-- **the printed result of `fingerprint_url` reparses to its tuple** (modelled parser, after
-`ensure_protocol`, scheme `http`): every string of the class whose fingerprint has a netloc -/
+`ensure_protocol`, scheme `http`): every string of the class, with or without a host left -/
 theorem fp_reparse (trie : SNode Str) (sfx : Bool) (hplain : sfx = true → HostPlain g.host)
     (t' : Split)
-    (ht : fpOfParsed (stringEnv puny id trie) sfx g.proto.hasProto (g.record po) = .ok t')
-    (hn : t'.netloc ≠ []) :
+    (ht : fpOfParsed (stringEnv puny id trie) sfx g.proto.hasProto (g.record po) = .ok t') :
     Ural.LruVariants.modelSplit5 (ensureProtocol (fpString t') Ural.LruVariants.httpStr) =
       some ⟨['h', 't', 't', 'p'], t'.netloc, t'.path, t'.query, t'.fragment.getD []⟩ := by
   obtain ⟨H', e, hbad, _⟩ := fp_tuple hpc G trie sfx hplain
   rw [e] at ht
   simp only [Except.ok.injEq] at ht
   subst ht
-  simp only at hn ⊢
+  rw [fpString_eq]
+  simp only
   have hfree : ∀ d, d ∈ ['/', '?', '#', '@', ':', '[', ']'] → d ∉ H' :=
     fun d hd hm => G.host_free hd (hbad d (delim_bad hd) hm)
-  have hnd : ∀ c ∈ H', isNetlocDelim c = false := by
-    intro c hc
-    cases hd : isNetlocDelim c with
-    | false => rfl
-    | true =>
-      exfalso
-      simp only [isNetlocDelim, Bool.or_eq_true, decide_eq_true_eq] at hd
-      rcases hd with (rfl | rfl) | rfl
-      · exact hfree _ (by simp) hc
-      · exact hfree _ (by simp) hc
-      · exact hfree _ (by simp) hc
-  have hok : netlocOk H' = true := netlocOk_of_no_bracket (hfree _ (by simp)) (hfree _ (by simp))
-  have hns : ∀ L : Str, (∀ c ∈ L, isAsciiAlpha c = true) → H' ≠ L ++ [':'] := by
-    intro L _ e'
-    exact hfree ':' (by simp) (by rw [e']; simp)
-  have hnc : NoCtl H' := by
-    intro c hc
-    cases hcc : isControlChar c with
-    | false => rfl
-    | true =>
-      have := hbad c (ctl_bad hcc) hc
-      rw [G.noCtl_sub G.host_sub c this] at hcc; cases hcc
+  have hNL : NetlocOk H' := by
+    refine ⟨?_, netlocOk_of_no_bracket (hfree _ (by simp)) (hfree _ (by simp)), ?_, ?_⟩
+    · intro c hc
+      cases hd : isNetlocDelim c with
+      | false => rfl
+      | true =>
+        exfalso
+        simp only [isNetlocDelim, Bool.or_eq_true, decide_eq_true_eq] at hd
+        rcases hd with (rfl | rfl) | rfl
+        · exact hfree _ (by simp) hc
+        · exact hfree _ (by simp) hc
+        · exact hfree _ (by simp) hc
+    · intro L _ e'
+      exact hfree ':' (by simp) (by rw [e']; simp)
+    · intro c hc
+      cases hcc : isControlChar c with
+      | false => rfl
+      | true =>
+        have := hbad c (ctl_bad hcc) hc
+        rw [G.noCtl_sub G.host_sub c this] at hcc; cases hcc
   have hpath : PathOk (lower (normParts puny fpOpts g.proto.hasProto (g.record po)).path) :=
     pathOk_lower (parts_pathOk hpc fpOpts G _)
+  have hhead : Head1 (lower (normParts puny fpOpts g.proto.hasProto (g.record po)).path) := by
+    rcases parts_head1 hpc fpOpts G g.proto.hasProto with h | h | ⟨d, r, h, hd⟩
+    · left; rw [h]; rfl
+    · right; left; rw [h]; decide
+    · right; right
+      rw [h]
+      refine ⟨lowerChar d, lower r, by simp [lower]; decide, ?_⟩
+      intro e'
+      apply hd
+      exact lowerChar_eq_of_not_lower e' (by decide)
   have hq : QOk (lower (normParts puny fpOpts g.proto.hasProto (g.record po)).query) :=
     qOk_lower (parts_qOk hpc fpOpts G _)
   have hf : NoCtl (lower (normComps puny fpOpts g.proto.hasProto (g.record po)).fragment) :=
@@ -390,21 +350,7 @@ theorem fp_reparse (trie : SNode Str) (sfx : Bool) (hplain : sfx = true → Host
       lower (normComps puny fpOpts g.proto.hasProto (g.record po)).fragment := by
     rw [parts_fragment hpc fpOpts G]; rfl
   rw [hfr]
-  have hstr : fpString (Split.mk [] H'
-      (lower (normParts puny fpOpts g.proto.hasProto (g.record po)).path)
-      (lower (normParts puny fpOpts g.proto.hasProto (g.record po)).query)
-      ((normParts puny fpOpts g.proto.hasProto (g.record po)).fragment.map lower)) =
-      (urlunsplit20 [] H' (lower (normParts puny fpOpts g.proto.hasProto (g.record po)).path)
-        (lower (normParts puny fpOpts g.proto.hasProto (g.record po)).query)
-        (lower (normComps puny fpOpts g.proto.hasProto (g.record po)).fragment)).drop 2 := by
-    unfold fpString
-    simp only
-    rw [urlunsplit_eq_urlunsplit20]
-    simp only [hfr]
-    rw [urlunsplit20_eq, bodyOf_true [] H' _ (by simp [hn]) hpath.abs]
-    simp [schemePart, startsWith_cons_cons, startsWith_nil]
-  rw [hstr]
-  exact stripped_reparse H' _ _ _ hn hnd hok hns hnc hpath hq hf
+  exact print_reparse true [] H' _ _ _ (Or.inl rfl) (Or.inr (Or.inl rfl)) hNL hpath hhead hq hf
 
 end
 
